@@ -38,6 +38,7 @@ fn main() {
         Some("extract") => extract_cmd(&args),
         Some("gensweep") => gensweep_cmd(&args),
         Some("stall") => stall_cmd(&args),
+        Some("busy") => busy_cmd(&args),
         Some("wrap") => wrap_cmd(&args),
         Some("extwipe") => extwipe_cmd(&args),
         _ => {
@@ -857,6 +858,65 @@ fn stall_cmd(_args: &[String]) -> Value {
         }
     }
     json!({"cases": cases, "max_accesses": max_acc, "bound": 2 + 9 * RETRY, "samples": samples, "violations": violations, "errors": errors, "wall_s": t0.elapsed().as_secs_f64()})
+}
+
+// ------------------------------------------------------------------------------------------ busy (C18)
+/// A writer that never stops: one complete real write() lands before EVERY load the reader performs, so that every
+/// attempt of one snapshot() call straddles a completed update. The call must still end (with an error) after its
+/// bounded number of attempts - it may not start over, refill its budget, or wait for a quiet moment.
+fn busy_cmd(_args: &[String]) -> Value {
+    use clock_bound_shm::verif::{self, Action, Event, Op};
+    use clock_bound_shm::{ShmReader, ShmWrite, ShmWriter};
+    use std::cell::{Cell, RefCell};
+    use std::rc::Rc;
+    let path = scratch_path("busy");
+    std::fs::write(&path, image(true, 72, 1, 4, &rec_words(1))).unwrap();
+    let w = Rc::new(RefCell::new(ShmWriter::new(&path).unwrap()));
+    let c = std::ffi::CString::new(path.to_string_lossy().as_bytes()).unwrap();
+    let mut rd = ShmReader::new(&c).expect("reader");
+    let _ = rd.snapshot(); // a cached snapshot exists
+    let loads = Rc::new(Cell::new(0u64));
+    let k = Rc::new(Cell::new(1u64));
+    let cap = 3 * RETRY + 10;
+    let mut cases = vec![];
+    let mut violations = vec![];
+    let t0 = std::time::Instant::now();
+    for warm in [true, false] {
+        if !warm {
+            rd = ShmReader::new(&c).expect("reader"); // a reader that has no snapshot yet
+        }
+        loads.set(0);
+        {
+            let (w, loads, k) = (w.clone(), loads.clone(), k.clone());
+            verif::install(Box::new(move |e: Event| {
+                if let Op::Load = e.op {
+                    loads.set(loads.get() + 1);
+                    if loads.get() > cap {
+                        return Action::Crash;
+                    }
+                    k.set(k.get() + 1);
+                    w.borrow_mut().write(&rec(k.get())); // the hook is not re-entered by the writer's own accesses
+                }
+                Action::Proceed
+            }));
+        }
+        let res = std::panic::catch_unwind(std::panic::AssertUnwindSafe(|| rd.snapshot().map(|c| words_of(c)[0]).map_err(|e| shm_err(&e))));
+        verif::uninstall();
+        let n = loads.get();
+        let what = match &res {
+            Ok(Ok(kk)) => format!("ok record {kk}"),
+            Ok(Err(e)) => format!("error {e}"),
+            Err(_) => "still running (cut off)".to_string(),
+        };
+        cases.push(json!({"reader": if warm { "has a cached snapshot" } else { "fresh" }, "loads_in_one_call": n, "publications": k.get(), "result": what}));
+        if res.is_err() || n > RETRY + 3 {
+            violations.push(json!({"case": {"reader": if warm { "warm" } else { "fresh" }}, "violations": [{"property": "C18", "signature": "unbounded-work",
+                "what": format!("one snapshot() call against a writer that completes an update before every load performed {n} loads (budget {RETRY} attempts) and {}", if res.is_err() { "was still running" } else { "only then returned" })}]}));
+        }
+    }
+    drop(rd);
+    cleanup(&path);
+    json!({"cases": cases, "violations": violations, "wall_s": t0.elapsed().as_secs_f64()})
 }
 
 // ------------------------------------------------------------------------------------------ wrap (C03 exception, C02 finding)
